@@ -506,7 +506,11 @@ func (g *gen) text(max int) string {
 		case 0:
 			b.WriteString("</script>")
 		case 1:
-			b.WriteByte(byte(128 + g.r.Intn(128))) // not UTF-8: outside the reference (skipped and counted)
+			if g.r.Intn(6) == 0 {
+				b.WriteByte(byte(128 + g.r.Intn(128))) // not UTF-8: outside the reference (skipped and counted)
+			} else {
+				b.WriteString("\u2028")
+			}
 		default:
 			b.WriteRune(runeMenu[g.r.Intn(len(runeMenu))])
 		}
